@@ -133,6 +133,17 @@ PARSE_UNITTEST = {
 }
 
 
+SUITE_TESTS = {        # the `tests` attribute written to the report: one per recorded test case (= testcase element)
+    'property': ['C17'],
+    'params': {},
+    'self_fields': {'testCases': 'List[CaseInfo]', 'errors': 'int', 'failures': 'int'},
+    'returns': 'int',
+    'requires': [], 'modifies': [],
+    'ensures': ["result == len(self.testCases)"],
+    'raises': {},
+}
+
+
 def syntactic(E):
     w, _, src = E.find_def('formatter.XMLOutputFormattingWrapper.writeXMLReports')
     E.syntactic_obligation("writeXMLReports takes tests/errors/failures attributes from the suite info and writes one testcase per recorded case",
@@ -238,5 +249,7 @@ def register(E):
             return VObj('Str', z3.Const('undefined_str', Str))       # only on paths where the clause is vacuous
         return VObj('Str', cat(cat(c.z, dot), n.z))
     E.specfuncs['dotted'] = _dotted
+    E.records['formatter.TestSuiteInfo'] = {}
+    E.add_contract('formatter.TestSuiteInfo.tests', SUITE_TESTS)
     E.add_contract('formatter.parse_unittest', PARSE_UNITTEST)
     E.add_contract('formatter.XMLOutputFormattingWrapper._record', RECORD)
